@@ -150,6 +150,26 @@ func runC15(r *Run, rng *rand.Rand, thorough bool) {
 						alt := &vss.Share{Threshold: t, ID: sh.ID, Share: new(big.Int).Add(sh.Share, bi(1))}
 						ga, _, _ := r.Do("vss.Share.Verify/"+tag, true, "vss_verify", tag, fmt.Sprint(t), eShare(alt), ePoints(vs))
 						r.Assert(ga == "reject", "vss.Share.Verify/altered-share", "altered-share-rejected", nil)
+						// the additive inverse of the share / of a commitment point: same x coordinate of the evaluated point
+						if ns := new(big.Int).Mod(new(big.Int).Neg(sh.Share), q); ns.Sign() != 0 && ns.Cmp(new(big.Int).Mod(sh.Share, q)) != 0 {
+							altN := &vss.Share{Threshold: t, ID: sh.ID, Share: ns}
+							gn, _, _ := r.Do("vss.Share.Verify/"+tag, true, "vss_verify", tag, fmt.Sprint(t), eShare(altN), ePoints(vs))
+							r.Assert(gn == "reject", "vss.Share.Verify/negated-share", "altered-share-rejected", func() string { return eShare(altN) })
+						}
+						{
+							kn := rng.Intn(len(vs))
+							fp := c.Params().P
+							nx, ny := vs[kn].X(), new(big.Int).Mod(new(big.Int).Neg(vs[kn].Y()), fp)
+							if tag == "ed" {
+								nx, ny = new(big.Int).Mod(new(big.Int).Neg(vs[kn].X()), fp), vs[kn].Y()
+							}
+							if np, err := crypto.NewECPoint(c, nx, ny); err == nil && !(np.X().Cmp(vs[kn].X()) == 0 && np.Y().Cmp(vs[kn].Y()) == 0) {
+								vsN := append(vss.Vs{}, vs...)
+								vsN[kn] = np
+								gn, _, _ := r.Do("vss.Share.Verify/"+tag, true, "vss_verify", tag, fmt.Sprint(t), eShare(sh), ePoints(vsN))
+								r.Assert(gn == "reject", "vss.Share.Verify/negated-commitment", "altered-commitment-rejected", func() string { return fmt.Sprint(kn) })
+							}
+						}
 						k := rng.Intn(len(vs))
 						vs2 := append(vss.Vs{}, vs...)
 						vs2[k], _ = vs[k].Add(crypto.ScalarBaseMult(c, bi(1)))
